@@ -73,9 +73,40 @@ def same(obs, exp):
 
 def run_scenarios(ck, sc, site_of=None):
     """layer 3: execute through the public API and compare with the spec's prediction."""
-    inp = "\n".join(json.dumps({k: s[k] for k in ("id", "ops", "prove_ops") if k in s}) for s in sc) + "\n"
-    out = vlib.harness("prog_run", [], stdin=inp, timeout=3000, env={"VERIF_SEED": str(vlib.seed())})
-    obs = {e["id"]: e for e in vlib.read_ndjson_text(out)}
+    # perturb-and-propagate adversary on every honest scenario that returns witnesses:
+    # one internal witness shifted, every evaluated-output row downstream recomputed
+    # (generic propagation in the harness); the property demands that no such
+    # assignment is ACCEPTED with other returned values
+    nsweep = 10 if ck.tier == "quick" else 48
+    lines = []
+    for s in sc:
+        rec = {k: s[k] for k in ("id", "ops", "prove_ops") if k in s}
+        if s["expect"]["res"] == "ok" and s["expect"]["ret"] and "prove_ops" not in s:
+            rec["sweep"] = {"max": nsweep}
+        lines.append(json.dumps(rec))
+    out = vlib.harness("prog_run", [], stdin="\n".join(lines) + "\n", timeout=6000,
+                       env={"VERIF_SEED": str(vlib.seed())})
+    allobs = vlib.read_ndjson_text(out)
+    obs = {e["id"]: e for e in allobs if "variant" not in e}
+    by_id = {s["id"]: s for s in sc}
+    nvar = 0
+    for v in allobs:
+        if "variant" not in v:
+            continue
+        nvar += 1
+        s = by_id[v["id"]]
+        ck.case("%s/%s/sweep-%d" % (s["g"], v["id"], v["variant"]))
+        if v.get("res") == "ok" and v.get("verify") == "ok" and v["ret"] != s["expect"]["ret"]:
+            ck.violation(
+                "component %s: with internal witness %d shifted (and the evaluated outputs downstream "
+                "recomputed) the prover proves and the verifier ACCEPTS returned values different from the "
+                "documented ones" % (s["g"], v["variant"]),
+                {"key": {"site": s["g"], "class": "perturb-propagate-accepted"},
+                 "scenario": s, "variant": v})
+        elif str(v.get("res", "")).startswith("panic"):
+            ck.violation("component %s panicked on a perturbed assignment: %s" % (s["g"], v["res"]),
+                         {"key": {"site": s["g"], "class": "panic"}, "scenario": s, "variant": v})
+    ck.extra["perturb_propagate_variants"] = ck.extra.get("perturb_propagate_variants", 0) + nvar
     for s in sc:
         o = obs.get(s["id"])
         if o is None:
